@@ -143,22 +143,21 @@ Proof.
     + apply IH; tauto.
 Qed.
 
-(** the transaction of RenameMailboxPerUser on a table where the LIKE rows are
-    exactly the children and the target subtree is free *)
+(** the transaction of RenameMailboxPerUser: the children are selected BEFORE the row is
+    renamed; when no name of the table lies below [new] the updates succeed and compute the
+    simultaneous renaming (also for a [new] below [old] itself: RENAME a a/b) *)
 Lemma rename_tx_clean bs1 old new :
   NoDup (names bs1) ->
   ~ In new (names bs1) ->
-  is_child old new = false ->
   (forall m, In m (names bs1) -> is_child new m = false) ->
-  let bs2 := set_name old new bs1 in
-  let cs := filter (is_child old) (names bs2) in
-  exists us, child_updates old new cs = Some us /\ apply_updates us bs2 = Some (map (ren old new) bs1).
+  let cs := filter (is_child old) (names bs1) in
+  exists us, child_updates old new cs = Some us /\
+             apply_updates us (set_name old new bs1) = Some (map (ren old new) bs1).
 Proof.
-  intros Hnd Hnew Hnc Hfree bs2 cs.
+  intros Hnd Hnew Hfree cs. set (bs2 := set_name old new bs1).
   set (g := fun c : str => new ++ skipn (length old) c).
   exists (map (fun c => (c, g c)) cs). split.
   { apply child_updates_ok. intros c Hc. apply filter_In in Hc. tauto. }
-  assert (Hnd2 : NoDup (names bs2)) by (apply NoDup_set_name; assumption).
   assert (Hin2 : forall m, In m (names bs2) -> m = new \/ In m (names bs1)).
   { intros m Hm. unfold bs2 in Hm. rewrite names_set_name in Hm. apply in_map_iff in Hm as (y & E & Hy).
     destruct (str_eqb y old); subst; auto. }
@@ -167,25 +166,68 @@ Proof.
   assert (Htarget : forall c, In c cs -> is_child new (g c) = true).
   { intros c Hc. apply filter_In in Hc as [_ Hc]. apply is_child_split in Hc as [r ->].
     unfold g. rewrite is_child_skipn. apply is_child_split. now exists r. }
+  assert (Hkeys : forall k, In k (map fst (map (fun c => (c, g c)) cs)) -> In k (names bs1) /\ is_child old k = true).
+  { intros k Hk. rewrite map_map in Hk. simpl in Hk. rewrite map_id in Hk. apply filter_In in Hk. exact Hk. }
   rewrite apply_updates_ok.
   - f_equal. unfold bs2, set_name. rewrite map_map. apply map_ext_in. intros b Hb.
     unfold ren. destruct (str_eqb (mb_name b) old) eqn:Eo.
     + unfold ren_by. simpl. rewrite assoc_none; [reflexivity|].
-      rewrite map_map. simpl. rewrite map_id. intros Hin. apply filter_In in Hin as [_ Hin]. congruence.
+      intros Hin. apply Hkeys in Hin as [Hin _]. contradiction.
     + unfold ren_by. destruct (is_child old (mb_name b)) eqn:Ec.
-      * rewrite assoc_map_in; [reflexivity|]. apply filter_In. split; [|exact Ec].
-        unfold bs2. rewrite names_set_name. apply in_map_iff. exists (mb_name b). rewrite Eo. split; [reflexivity|].
-        apply in_map. exact Hb.
-      * rewrite assoc_none; [reflexivity|]. rewrite map_map. simpl. rewrite map_id.
-        intros Hin. apply filter_In in Hin as [_ Hin]. congruence.
+      * rewrite assoc_map_in; [reflexivity|]. apply filter_In. split; [|exact Ec]. now apply in_map.
+      * rewrite assoc_none; [reflexivity|]. intros Hin. apply Hkeys in Hin as [_ Hin]. congruence.
   - intros n Hn Hin. rewrite map_map in Hn. simpl in Hn. apply in_map_iff in Hn as (c & <- & Hc).
     pose proof (Htarget c Hc) as T. rewrite (Hfree2 _ Hin) in T. discriminate T.
   - rewrite map_map. simpl. apply NoDup_map_inj_in.
-    + apply NoDup_filter. exact Hnd2.
+    + apply NoDup_filter. exact Hnd.
     + intros x y Hx Hy E. apply filter_In in Hx as [_ Hx]. apply filter_In in Hy as [_ Hy].
       apply is_child_split in Hx as [rx ->]. apply is_child_split in Hy as [ry ->].
       unfold g in E. rewrite !is_child_skipn in E. apply app_inv_head in E. congruence.
-  - intros n Hn Hin. rewrite map_map in Hn, Hin. simpl in Hn, Hin. rewrite map_id in Hin.
-    apply in_map_iff in Hn as (c & <- & Hc). apply filter_In in Hin as [Hin _].
-    pose proof (Htarget c Hc) as T. rewrite (Hfree2 _ Hin) in T. discriminate T.
+  - intros n Hn Hin. rewrite map_map in Hn. simpl in Hn.
+    apply in_map_iff in Hn as (c & <- & Hc). apply Hkeys in Hin as [Hin _].
+    pose proof (Htarget c Hc) as T. rewrite (Hfree _ Hin) in T. discriminate T.
+Qed.
+
+(** the renaming keeps names unique under the same conditions *)
+Lemma ren_nodup bs1 old new :
+  NoDup (names bs1) ->
+  ~ In new (names bs1) ->
+  (forall m, In m (names bs1) -> is_child new m = false) ->
+  NoDup (names (map (ren old new) bs1)).
+Proof.
+  intros Hnd Hnew Hfree.
+  set (f := fun k : str => if str_eqb k old then new else if is_child old k then new ++ skipn (length old) k else k).
+  assert (E : names (map (ren old new) bs1) = map f (names bs1)).
+  { unfold names. rewrite !map_map. apply map_ext. intros b. unfold ren, f.
+    destruct (str_eqb (mb_name b) old); [reflexivity|]. destruct (is_child old (mb_name b)); reflexivity. }
+  rewrite E. apply NoDup_map_inj_in; [exact Hnd|].
+  assert (Hch : forall k, is_child old k = true -> is_child new (new ++ skipn (length old) k) = true).
+  { intros k Hk. apply is_child_split in Hk as [r ->]. rewrite is_child_skipn. apply is_child_split. now exists r. }
+  intros x y Hx Hy. unfold f.
+  destruct (str_eqb_spec x old) as [->|Nx], (str_eqb_spec y old) as [->|Ny]; try congruence.
+  - destruct (is_child old y) eqn:Cy; intros Ee.
+    + exfalso. pose proof (Hch y Cy) as T. rewrite <- Ee, is_child_self in T. discriminate.
+    + subst y. contradiction.
+  - destruct (is_child old x) eqn:Cx; intros Ee.
+    + exfalso. pose proof (Hch x Cx) as T. rewrite Ee, is_child_self in T. discriminate.
+    + subst x. contradiction.
+  - destruct (is_child old x) eqn:Cx, (is_child old y) eqn:Cy; intros Ee.
+    + apply is_child_split in Cx as [rx ->]. apply is_child_split in Cy as [ry ->].
+      rewrite !is_child_skipn in Ee. apply app_inv_head in Ee. congruence.
+    + exfalso. pose proof (Hch x Cx) as T. rewrite Ee, (Hfree _ Hy) in T. discriminate.
+    + exfalso. pose proof (Hch y Cy) as T. rewrite <- Ee, (Hfree _ Hx) in T. discriminate.
+    + exact Ee.
+Qed.
+
+Lemma mem_str_in n l : mem_str n l = true <-> In n l.
+Proof.
+  unfold mem_str. rewrite existsb_exists. split.
+  - intros (x & Hx & E). apply str_eqb_eq in E. now subst.
+  - intros H. exists n. split; [exact H | apply str_eqb_refl].
+Qed.
+
+Lemma nodupb_true l : NoDup l -> nodupb l = true.
+Proof.
+  induction 1 as [|x l Hx Hl IH]; simpl; [reflexivity|]. rewrite IH, andb_true_r.
+  apply negb_true_iff. destruct (mem_str x l) eqn:E; [|reflexivity]. apply mem_str_in in E. contradiction.
 Qed.
